@@ -19,7 +19,7 @@ RULE = ('cases = (source list, source kind, condition kind+stream, list of next(
         'iterators returned by split) run against aiuti.itertools.split with logging sources/conditions; '
         'exhaustive layer: every source length 0..L, every condition stream (callable results / iterable of '
         'length len-1..len+1), every interleaving of len+3 next() calls (observed after each call, so all '
-        'prefixes are covered); random layer: longer sources, non-bool truthy/falsy condition values, '
+        'prefixes are covered; sources and iterable conditions rotate over one-shot iterator / re-iterable object / real list subclass, so empty (falsy) lists occur); random layer: longer sources, non-bool truthy/falsy condition values, '
         'abandoning one side.  non-trivial = both sides are advanced, something is yielded and len>=2 '
         '(decided by Case_C18.nontrivial inside Coq); distinct = distinct (case, trace) pairs among those')
 EXHAUSTIVE_NOTE = 'exhaustive layer enumerates all op interleavings for sources of length <= L (L=3 quick, 4 thorough)'
@@ -78,6 +78,22 @@ class LogIterable:
         return LogIter(self.items, self.log, self.stops)
 
 
+class LogList(list):
+    """A real list (sized, falsy when empty, like the lists/tuples/ranges users pass) whose
+    iteration is logged like LogIterable's."""
+
+    def __init__(self, items, log, stops):
+        super().__init__(items)
+        self._log, self._stops = log, stops
+
+    def __iter__(self):
+        return LogIter(list.copy(self), self._log, self._stops)
+
+
+KINDS = {'iterator': LogIter, 'iterable': LogIterable, 'list': LogList}
+KIND_NAMES = ['iterator', 'iterable', 'list']
+
+
 def truth_obj(b, k, fancy):
     if not fancy:
         return bool(b)
@@ -89,13 +105,13 @@ def run_impl(case):
     if case['kind'] == 'exhaust':
         plog, stops = [], [0]
         items = list(range(case['n']))
-        src = (LogIter if case['src'] == 'iterator' else LogIterable)(items, plog, stops)
+        src = KINDS[case['src']](items, plog, stops)
         r = exhaust(src)
         return dict(plog=plog, stops=stops[0], none=r is None)
     xs, cs = case['xs'], case['cs']
     plog, pstops, elog, cstops = [], [0], [], [0]
     elems = [Elem(i, v) for i, v in enumerate(xs)]
-    src = (LogIter if case['src'] == 'iterator' else LogIterable)(elems, plog, pstops)
+    src = KINDS[case['src']](elems, plog, pstops)
     fancy = case.get('fancy', False)
     if case['callable']:
         def cond(e):
@@ -106,7 +122,7 @@ def run_impl(case):
             return truth_obj(b, k, fancy)
     else:
         cvals = [truth_obj(b, k, fancy) for k, b in enumerate(cs)]
-        cond = (LogIter if case['csrc'] == 'iterator' else LogIterable)(cvals, elog, cstops)
+        cond = KINDS[case['csrc']](cvals, elog, cstops)
     a, b = split(src, cond)
     its = {'L': a, 'R': b}
     obs = []
@@ -161,6 +177,8 @@ def corpus():
         mk([1, 0, 2], [True], 'LRLRLR', False),                                       # condition shorter
         mk([1], [True, False, True], 'RLRL', False),                                  # condition longer
         mk([1, 0, 2, 1], [False, False, True, True], 'LRRL', True, fancy=True),
+        mk([1, 0, 2], [], 'LRLR', False, src='list', csrc='list'),                    # empty (falsy) list as condition
+        mk([], [True], 'LR', False, src='list', csrc='list'),                         # empty (falsy) list as source
         dict(kind='exhaust', n=3, src='iterator'),
         dict(kind='exhaust', n=0, src='iterable'),
     ]
@@ -178,11 +196,12 @@ def gen_exhaustive(tier, seed):
         for k, (cal, cs) in enumerate(conds):
             for j, ops in enumerate(opss):
                 out.append(mk(xs, cs, ops, cal,
-                              src='iterator' if (k + j) % 2 else 'iterable',
-                              csrc='iterator' if (k + j) % 3 else 'iterable'))
+                              src=KIND_NAMES[(k + j) % 3],
+                              csrc=KIND_NAMES[(k + j // 3) % 3]))
     for n in range(0, 6):
         out.append(dict(kind='exhaust', n=n, src='iterator'))
         out.append(dict(kind='exhaust', n=n, src='iterable'))
+        out.append(dict(kind='exhaust', n=n, src='list'))
     return out
 
 
@@ -206,8 +225,8 @@ def gen_random(tier, seed):
             ops = a * (n + 1) + ('R' if a == 'L' else 'L') * k
         else:
             ops = ''.join(rnd.choice('LR') for _ in range(k + 2))
-        out.append(mk(xs, cs, ops, cal, src=rnd.choice(['iterator', 'iterable']),
-                      csrc=rnd.choice(['iterator', 'iterable']), fancy=rnd.random() < 0.5))
+        out.append(mk(xs, cs, ops, cal, src=rnd.choice(KIND_NAMES),
+                      csrc=rnd.choice(KIND_NAMES), fancy=rnd.random() < 0.5))
     return out
 
 
